@@ -470,6 +470,8 @@ def op_checksig(st, valid):
     """<sig> <pubkey> OP_CHECKSIG: valid(sig, pubkey) is the signature check of the spending transaction (abstract)"""
     if len(st) < 2:
         return None
+    if len(st[-2]) == 0:
+        return st[:-2] + [F]           # an empty signature is a failed check (not an encoding error)
     return st[:-2] + [_b(valid(st[-2], st[-1]))]
 
 
